@@ -82,11 +82,31 @@ def unit_o2e(kind, key):
         def __repr__(self):
             return f"<sub {self.name}>"
 
-    for pat in pats + empties:
+    # messages with real header values: what is absent stays absent whatever tag and response code say (a failed response that
+    # carries the sessions tag is header-only all the same; a sessions tag with an empty session area keeps the empty list)
+    concrete = []
+    if kind == "frame":
+        from tpmstream.spec.structures.constants import TPM_ST
+        from tpmstream.spec.common.tpm_rc import TPM_RC
+
+        hdr = ("tag", "commandSize", "commandCode", "responseSize", "responseCode")
+        for tag in (TPM_ST.SESSIONS, TPM_ST.NO_SESSIONS):
+            for rc in ((TPM_RC(0x101), TPM_RC(0)) if key == "Response" else (None,)):
+                for body in ("header-only", "no-sessions", "all"):
+                    pres = tuple(n in hdr if body == "header-only" else (n not in ("authSize", "parameterSize", "authorizationArea") if body == "no-sessions" else True) for n in names)
+                    over = {"tag": tag}
+                    if rc is not None:
+                        over["responseCode"] = rc
+                    concrete.append(("concrete", pres, over))
+
+    for pat in pats + empties + concrete:
         def run(ctx, pat=pat):
             if pat and pat[0] == "empty-list":
                 subs = {n: Sub(n) for n in names}
                 subs[pat[1]] = []
+            elif pat and pat[0] == "concrete":
+                subs = {n: (Sub(n) if present else None) for n, present in zip(names, pat[1])}
+                subs.update(pat[2])
             else:
                 subs = {n: (Sub(n) if present else None) for n, present in zip(names, pat)}
             obj = T(**subs)
